@@ -128,7 +128,11 @@ type Plan struct {
 	Writes     []WriteRule `json:"writes,omitempty"`
 	CutAt      int         `json:"cut_at,omitempty"` // >0: after this many bytes written in total the connection dies mid-write
 	WriteDelayUs int       `json:"write_delay_us,omitempty"` // >0: every Write of the driver takes this long before its bytes are delivered (a slow link)
+	CloseErr     bool      `json:"close_err,omitempty"`      // the driver's Close closes the connection and reports an error (a TLS connection whose close_notify cannot be sent)
 }
+
+// ErrCloseNotify is what Close returns under Plan.CloseErr.
+var ErrCloseNotify = errors.New("vnode: connection closed, close_notify could not be sent")
 
 // WriteRec records one Write call of the driver.
 type WriteRec struct {
@@ -303,6 +307,9 @@ func (c *Conn) Close() error {
 	c.rd.closeRead()
 	if f != nil {
 		f()
+	}
+	if c.client && c.plan.CloseErr {
+		return ErrCloseNotify
 	}
 	return nil
 }
